@@ -6,6 +6,7 @@ mod u1;
 mod u10;
 mod u2;
 mod u3;
+mod u5;
 mod u6;
 mod u9;
 mod util;
@@ -27,6 +28,8 @@ fn main() {
     ("u2", "replay") => u2::replay(rest),
     ("u10", "find") => u10::find(rest),
     ("u10", "replay") => u10::replay(rest),
+    ("u5", "find") => u5::find(rest),
+    ("u5", "replay") => u5::replay(rest),
     ("u6", "find") => u6::find(rest),
     ("u6", "replay") => u6::replay(rest),
     ("u9", "find") => u9::find(rest),
